@@ -143,7 +143,12 @@ def gate_oracle(c, toks):
             if res == 0 and (multi or started(k) == 0):
                 return ("assoc-insert-failed-on-absent-key", "%s: T%d insert(%d) failed although no successful insert of it had started" % (d, tid, k))
         elif op == 3:
-            if not (done(k) <= res <= started(k)):
+            # concurrent_multiset::count is distance(lower_bound, upper_bound) with the two bounds found by separate searches: an
+            # element with a LARGER key inserted in between is walked over as well, so count may exceed the number of equal keys
+            # while other keys are being inserted.  The property promises that count is safe and that completed inserts are
+            # found, not that count is exact under concurrent inserts of other keys: no upper bound for the ordered multi container.
+            hi = started(k) if kind != 3 else 10 ** 9
+            if not (done(k) <= res <= hi):
                 return ("assoc-count", "%s: T%d count(%d) = %d, but %d insert(s) had completed before it began and %d had started before it ended" % (d, tid, k, res, done(k), started(k)))
         else:
             for kk in set(seen) | set(succ):
